@@ -388,6 +388,256 @@ def inline_helpers(unit, fn, skip=lambda name, h: False, depth=3):
 
 
 # ----------------------------------------------------------------------------------------------------------------
+# values that flow through a local struct ("bundle the saved buffer and its spec in a struct" must not change what a
+# rule sees): `v.f` / `(&v)->f` of a local record variable is replaced by the expression the field was defined with
+
+
+def record_fields(unit, type_text):
+    """field names (declaration order) of the struct a type text names in this TU (through a typedef of an anonymous
+    or named struct), or None when the record is not defined in the TU's own declarations / is a union"""
+    t = re.sub(r"\b(const|volatile|struct)\b", " ", type_text or "").strip()
+    if not re.fullmatch(r"[A-Za-z_]\w*", t):
+        return None
+    rec = unit.records.get(t)
+    if rec is None:
+        td = unit.typedefs.get(t)
+        if td is None:
+            return None
+        rid = None
+        for x in cir.walk(td):
+            if x.get("k") == "RecordType" and (x.get("decl") or {}).get("id"):
+                rid = x["decl"]["id"]
+                break
+        if rid is not None:
+            for d in unit.ir["decls"]:
+                if d.get("k") == "RecordDecl" and d.get("id") == rid and d.get("completeDefinition"):
+                    rec = d
+                    break
+        if rec is None:
+            inner = re.sub(r"\b(const|volatile|struct)\b", " ", td.get("t") or "").strip()
+            rec = unit.records.get(inner) if inner != t else None
+    if rec is None or rec.get("tagUsed") == "union":
+        return None
+    fields = [c.get("n") for c in cir.kids(rec) if c is not None and c.get("k") == "FieldDecl"]
+    if not fields or any(not f for f in fields) or \
+            any(c is not None and c.get("k") in ("RecordDecl", "IndirectFieldDecl") for c in cir.kids(rec)):
+        return None
+    return fields
+
+
+_VALUE_KINDS = {"DeclRefExpr", "IntegerLiteral", "FloatingLiteral", "CharacterLiteral", "GNUNullExpr", "UnaryOperator",
+                "BinaryOperator", "ConditionalOperator", "MemberExpr", "ArraySubscriptExpr",
+                "UnaryExprOrTypeTraitExpr"} | set(cir.TRANSPARENT)
+
+
+def _stable_value(e):
+    """e is a pure value expression whose memory reads (if any) all go through pointers to const"""
+    for x in cir.walk(e):
+        k = x.get("k")
+        if k not in _VALUE_KINDS:
+            return False
+        if k == "BinaryOperator" and x.get("op") in ("=", ","):
+            return False
+        if k == "UnaryOperator" and x.get("op") in ("++", "--", "&"):
+            return False
+        if k == "MemberExpr":
+            b = cir.strip(cir.kids(x)[0]) if cir.kids(x) else None
+            if not x.get("arrow") or not ((b or {}).get("t") or "").startswith("const "):
+                return False
+        if k == "ArraySubscriptExpr" or (k == "UnaryOperator" and x.get("op") == "*"):
+            b = cir.strip(cir.kids(x)[0])
+            if "const " not in ((b or {}).get("t") or ""):
+                return False
+    return True
+
+
+def resolve_local_structs(unit, fn, rounds=3):
+    """A copy of `fn` in which reads `v.f` / `(&v)->f` of a local struct variable `v` are replaced by the expression the
+    field was defined with: the member of v's initialiser list, or the single statement `v.f = e;` of the block that
+    declares v (for the reads after it).  Only when nothing else can change the field (v is never assigned as a whole,
+    no other store into v, `&v` does not escape unless v is const-qualified), the defining expression is a pure value
+    (locals, parameters, constants, reads through pointers to const) and none of the variables it mentions is modified or
+    address-taken between the definition and the read.  Everything else is left as it is.
+    Returns (copy, ["v.f", ...] resolved)."""
+    import copy
+    out = copy.deepcopy(fn)
+    done = []
+    for _ in range(rounds):
+        n = _resolve_structs_once(unit, out, done)
+        if not n:
+            break
+    return out, sorted(set(done))
+
+
+def _resolve_structs_once(unit, fn, done):
+    body = cir.body(fn)
+    if body is None:
+        return 0
+    nodes = list(cir.walk(body))
+    order = {id(x): i for i, x in enumerate(nodes)}
+    last = {}                      # id(node) -> position of the last node of its subtree
+    parent = {}
+    for x in nodes:
+        for c in cir.kids(x):
+            if c is not None:
+                parent[id(c)] = x
+    for x in reversed(nodes):
+        last.setdefault(id(x), order[id(x)])
+        p = parent.get(id(x))
+        if p is not None:
+            last[id(p)] = max(last.get(id(p), 0), last[id(x)])
+    cand = {}
+    for x in nodes:
+        if x.get("k") == "VarDecl" and x.get("storageClass") != "static":
+            t = x.get("t") or ""
+            if "*" in t or "[" in t or "(" in t:
+                continue
+            fields = record_fields(unit, t)
+            if fields:
+                cand[x.get("id")] = {"decl": x, "fields": fields, "const": bool(re.search(r"\bconst\b", t)),
+                                     "assign": {}, "reads": [], "ok": True}
+    if not cand:
+        return 0
+    # modification positions of plain variables (for the stability of the defining expressions)
+    modpos, addr = {}, set()
+    for x in nodes:
+        k = x.get("k")
+        if is_assign(x) or (k == "UnaryOperator" and x.get("op") == "&"):
+            r = root_ref(cir.kids(x)[0])
+            rid = ((r or {}).get("ref") or {}).get("id")
+            if rid is None:
+                continue
+            t = cir.strip(cir.kids(x)[0])
+            if k == "UnaryOperator" and x.get("op") == "&":
+                # &v, &v.f, &arr[i]: the variable's own storage escapes; &p->f, &p[i] do not expose p
+                y = t
+                while y is not None and ((y.get("k") == "MemberExpr" and not y.get("arrow")) or
+                                         (y.get("k") == "ArraySubscriptExpr" and
+                                          "[" in ((cir.strip(cir.kids(y)[0]) or {}).get("t") or ""))):
+                    y = cir.strip(cir.kids(y)[0])
+                if y is not None and y.get("k") == "DeclRefExpr":
+                    addr.add(rid)
+            elif t is not None and t.get("k") == "DeclRefExpr":
+                modpos.setdefault(rid, []).append(order[id(x)])
+            elif "*" not in ((r or {}).get("t") or ""):
+                # a store into an element / member of a non-pointer local (array, struct)
+                modpos.setdefault(rid, []).append(order[id(x)])
+
+    def up(x):
+        """parent of x above parentheses and implicit casts"""
+        p = parent.get(id(x))
+        while p is not None and p.get("k") in ("ParenExpr", "ImplicitCastExpr"):
+            x, p = p, parent.get(id(p))
+        return x, p
+    for x in nodes:
+        if x.get("k") != "DeclRefExpr" or (x.get("ref") or {}).get("id") not in cand:
+            continue
+        c = cand[x["ref"]["id"]]
+        top, p = up(x)
+        member = None
+        if p is not None and p.get("k") == "MemberExpr" and not p.get("arrow") and cir.kids(p)[0] is top:
+            member = p
+        elif p is not None and p.get("k") == "UnaryOperator" and p.get("op") == "&":
+            t2, p2 = up(p)
+            if p2 is not None and p2.get("k") == "MemberExpr" and p2.get("arrow") and cir.kids(p2)[0] is t2:
+                member = p2
+            else:
+                if not c["const"]:
+                    c["ok"] = False    # &v escapes
+                continue
+        elif p is not None and is_assign(p) and cir.kids(p)[0] is top:
+            c["ok"] = False            # v = ..., v as a whole is overwritten
+            continue
+        if member is None:
+            continue                   # v read as a whole
+        # what happens to v.f: follow element / sub-member accesses up to the consuming operator
+        mt, mp = up(member)
+        chain = False
+        while mp is not None and ((mp.get("k") == "MemberExpr" and not mp.get("arrow")) or
+                                  (mp.get("k") == "ArraySubscriptExpr" and cir.kids(mp)[0] is mt)):
+            if mp.get("k") == "ArraySubscriptExpr" and "[" not in ((cir.strip(mt) or {}).get("t") or ""):
+                break                  # v.f[i] with a pointer field: the store goes to what f points to, f is unchanged
+            chain = True
+            mt, mp = up(mp)
+        if mp is not None and is_assign(mp) and cir.kids(mp)[0] is mt:
+            blk = parent.get(id(mp))
+            dstmt = parent.get(id(c["decl"]))
+            if not chain and mp.get("k") == "BinaryOperator" and blk is not None and blk.get("k") == "CompoundStmt" and \
+                    dstmt is not None and parent.get(id(dstmt)) is blk:
+                c["assign"].setdefault(member.get("n"), []).append(mp)
+            else:
+                c["ok"] = False        # conditional / compound / partial store into the field
+            continue
+        if mp is not None and mp.get("k") == "UnaryOperator" and mp.get("op") == "&" and not c["const"]:
+            c["ok"] = False            # &v.f escapes
+            continue
+        c["reads"].append(member)
+
+    def usable(e, lo, hi):
+        if e is None or not _stable_value(e):
+            return False
+        for y in cir.walk(e):
+            if y.get("k") == "DeclRefExpr" and (y.get("ref") or {}).get("k") in ("VarDecl", "ParmVarDecl"):
+                rid = y["ref"].get("id")
+                if rid in addr or rid in cand or any(lo < q <= hi for q in modpos.get(rid, ())):
+                    return False
+        return True
+    repl = {}
+    for vid, c in cand.items():
+        if not c["ok"] or not c["reads"]:
+            continue
+        d = c["decl"]
+        init = var_init(d)
+        il = cir.strip(init) if init is not None else None
+        inits = {}
+        if il is not None and il.get("k") == "InitListExpr":
+            ks = list(cir.kids(il))
+            if len(ks) == len(c["fields"]):
+                inits = {f: e for f, e in zip(c["fields"], ks)
+                         if e is not None and e.get("k") not in ("ImplicitValueInitExpr", "InitListExpr")}
+            elif ks:
+                continue
+        elif init is not None:
+            continue                   # copy-initialised from another struct / a call: not followed
+        for m in c["reads"]:
+            f = m.get("n")
+            pos = order[id(m)]
+            asg = c["assign"].get(f, [])
+            if len(asg) > 1:
+                continue
+            if asg and pos > last[id(asg[0])]:
+                e, lo = cir.kids(asg[0])[1], last[id(asg[0])]
+            elif asg and pos >= order[id(asg[0])]:
+                continue               # inside the assignment itself
+            elif f in inits and pos > last[id(d)]:
+                e, lo = inits[f], order[id(d)]
+            else:
+                continue
+            if usable(e, lo, pos):
+                repl[id(m)] = (e, f"{d.get('n')}.{f}")
+    if not repl:
+        return 0
+    import copy
+
+    def rec(n):
+        ks = n.get("i")
+        if not ks:
+            return
+        for i, ch in enumerate(ks):
+            if not ch:
+                continue
+            r = repl.get(id(ch))
+            if r is not None:
+                ks[i] = {"k": "ParenExpr", "t": ch.get("t"), "line": ch.get("line"), "i": [copy.deepcopy(r[0])],
+                         "prop": r[1]}
+                done.append(r[1])
+            else:
+                rec(ch)
+    rec(body)
+    return len(repl)
+
+
+# ----------------------------------------------------------------------------------------------------------------
 # MJMODEL_REFERENCES
 
 
